@@ -161,6 +161,10 @@ pub fn run_case(ctx: &Ctx, case: &Case) -> Outcome {
         fail = Some(("C04|set-up".into(), "the cluster did not become quiet after creating the database".into()));
     }
     // who touched each key last: (command, role of the node it was issued on)
+    let with_election = case.steps.iter().any(|s| matches!(s.cmd, Cmd::ForceElection));
+    // (an election that does not end is stopped early: 30 000 scheduler steps are far above any settling run)
+    let budget: u64 = if with_election { 30_000 } else { 400_000 };
+    let mut election_unsettled = false;
     let mut last_touch: BTreeMap<String, Vec<(String, &'static str)>> = BTreeMap::new();
     // nodes on which a command on each key was issued
     let mut touched_at: BTreeMap<String, std::collections::BTreeSet<usize>> = BTreeMap::new();
@@ -185,22 +189,45 @@ pub fn run_case(ctx: &Ctx, case: &Case) -> Outcome {
                 }
                 prev_unsettled_key = if st.settle { None } else { Some(k) };
             }
-            if st.settle && !c.run(&mut choose, 400_000) {
-                fail = Some(("C04|no-quiescence".into(), format!("after step {} ({:?}@n{}): traffic does not stop; trace tail {:?}", i, st.cmd, at, c.trace_tail(30))));
+            if st.settle && !c.run(&mut choose, budget) {
+                if with_election {
+                    election_unsettled = true;
+                } else {
+                    fail = Some(("C04|no-quiescence".into(), format!("after step {} ({:?}@n{}): traffic does not stop; trace tail {:?}", i, st.cmd, at, c.trace_tail(30))));
+                }
                 break;
             }
         }
     }
-    if fail.is_none() && !c.run(&mut choose, 400_000) {
-        fail = Some(("C04|no-quiescence".into(), format!("traffic does not stop; trace tail {:?}", c.trace_tail(30))));
+    if fail.is_none() && !election_unsettled && !c.run(&mut choose, budget) {
+        if with_election {
+            election_unsettled = true;
+        } else {
+            fail = Some(("C04|no-quiescence".into(), format!("traffic does not stop; trace tail {:?}", c.trace_tail(30))));
+        }
+    }
+    if election_unsettled {
+        // whether elections end is C07's business (and recorded there); nothing is judged on a cluster that is not quiet
+        drop(c);
+        ctx.drop_dir(&scratch);
+        let mut o = Outcome::ok(false);
+        o.classes.push("history-with-an-election-that-did-not-settle");
+        return o;
     }
     if fail.is_none() && !c.panics.is_empty() {
+        if with_election {
+            // (the recorded re-join panic of the supervisor belongs to C07/C10)
+            drop(c);
+            ctx.drop_dir(&scratch);
+            let mut o = Outcome::ok(false);
+            o.classes.push("history-with-an-election-and-a-panic");
+            return o;
+        }
         fail = Some((format!("C04|panic|{}", c.panics[0].chars().skip(3).take(50).collect::<String>()), format!("{:?}", c.panics)));
     }
     let mut known_hits: BTreeMap<String, u64> = BTreeMap::new();
     // histories with a forced election are outside this property's premise (one primary throughout): what they write
     // is not compared; only C15's end-to-end clause is judged for them (no operation is left pending at quiescence)
-    let with_election = case.steps.iter().any(|s| matches!(s.cmd, Cmd::ForceElection));
     if fail.is_none() && !with_election {
         let primary = cluster_dump(&c, 0);
         'nodes: for i in 1..case.n {
